@@ -217,6 +217,7 @@ def finish(prop, tier, t0, results, level_rule, assumptions, extra=None, replays
             viols.append((j, v))
     nviol = 0
     lines = []
+    shutil.rmtree(rdir, ignore_errors=True)
     if viols:
         os.makedirs(rdir, exist_ok=True)
     for (j, v) in viols:
